@@ -235,6 +235,17 @@ def storeEntry (icap : Nat) (buf : List Entry) (sc : Scan) (e : Entry) : List En
       | none => buf
     else buf ++ [e]
 
+/-- `if max != -1 && rxt64.After(tssi.buf[max].rxt) { tssi.qval = rxt64; heap.Fix(&tssQ, tssi.qidx) }` -/
+def hrFix (st : State) (id : Nat) (qidx : Nat) (mx : Option (Nat × T64)) (rxt64 : T64) : State :=
+  match mx with
+  | some (_, v) => if after rxt64 v then fixQval st id rxt64 qidx else st
+  | none => st
+
+/-- `if len(tss) == tssCap && !tssQ[0].qval.After(rxt64) { x := heap.Pop(&tssQ); delete(tss, x.key) }` -/
+def evict (cap : Nat) (st : State) (rxt64 : T64) : State × Option Nat :=
+  if st.items.length = cap && !after (kv st 0) rxt64 then ((popMin st).1, some (popMin st).2)
+  else (st, none)
+
 /-- `handleRequest(clientID, req, rxt, txt, resp)` with `timebase.Now() = now`.
     `strict = true` is the repaired code (fix for finding F9: `txt` is forced later than
     `rxt` before the store is consulted), `strict = false` the code as it was. -/
@@ -251,12 +262,7 @@ def handleRequestG (strict : Bool) (cap icap : Nat) (st : State) (id : Nat) (req
     let sc := scan it.buf req.org
     let served := sc.o.bind (fun o => it.buf[o]?)
     let reply := mkReply req rxt64 txt64 served
-    let st1 : State :=
-      match sc.mx with
-      | some (_, v) =>
-        if after rxt64 v then fixQval st id rxt64 it.qidx
-        else st
-      | none => st
+    let st1 := hrFix st id it.qidx sc.mx rxt64
     let e : Entry := ⟨rxt64, txt64, id⟩
     let st2 : State :=
       { st1 with items := setBuf st1.items id (fun b => storeEntry icap b sc e) }
@@ -265,11 +271,7 @@ def handleRequestG (strict : Bool) (cap icap : Nat) (st : State) (id : Nat) (req
     let rxt64 := ofTime rxt0
     let txt64 := ofTime txt0
     let reply := mkReply req rxt64 txt64 none
-    let ev : State × Option Nat :=
-      if st.items.length = cap && !after (kv st 0) rxt64 then
-        let r := popMin st
-        (r.1, some r.2)
-      else (st, none)
+    let ev := evict cap st rxt64
     let st1 := ev.1
     if st1.items.length = cap then
       ⟨st1, reply, rxt0, txt0, ev.2⟩
@@ -315,6 +317,12 @@ def scan2 (buf : List Entry) (rxt64 : T64) : Scan2 := scan2Aux rxt64 buf 0 ⟨no
 
 def defaultEntry : Entry := ⟨zero64, zero64, 0⟩
 
+/-- `if tssi.buf[max0].rxt == rxt64 { tssi.qval = tssi.buf[max1].rxt; heap.Fix(&tssQ, tssi.qidx) }` -/
+def utxFix (st : State) (id : Nat) (qidx : Nat) (m0 m1 : Option (Nat × T64)) (rxt64 : T64) : State :=
+  match m0, m1 with
+  | some (_, v0), some (_, v1) => if v0 = rxt64 then fixQval st id v1 qidx else st
+  | _, _ => st
+
 /-- `updateTXTimestamp(clientID, rxt, txt)`; returns the state and `*txt` on return. -/
 def updateTX (st : State) (id : Nat) (rxt txt1 : Int) : State × Int :=
   let txt := if ¬ (rxt < txt1) then rxt + 1 else txt1
@@ -333,12 +341,7 @@ def updateTX (st : State) (id : Nat) (rxt txt1 : Int) : State × Int :=
       else if it.buf.length = 1 then
         (remove st it.qidx id, txt)
       else
-        let st1 : State :=
-          match sc.m0, sc.m1 with
-          | some (_, v0), some (_, v1) =>
-            if v0 = rxt64 then fixQval st id v1 it.qidx
-            else st
-          | _, _ => st
+        let st1 := utxFix st id it.qidx sc.m0 sc.m1 rxt64
         ({ st1 with items := setBuf st1.items id
                               (fun b => (b.set x (b.getD (b.length - 1) defaultEntry)).dropLast) }, txt)
 
